@@ -37,7 +37,7 @@ def codec_witness(prop, failures, repo, verif, workdir, seed, log):
 
 
 def replace_witness(prop, failures, repo, verif, workdir, seed, log):
-    if any("rope_core" in f.name or "rope_obs" in f.name for f in failures):
+    if any("rope_core" in f.name or "rope_obs" in f.name or "rope_build" in f.name for f in failures):
         r = rope_witness(prop, failures, repo, verif, workdir, seed, log)
         if r.get("found") or all("rope_core" in f.name for f in failures):
             return r
@@ -146,7 +146,7 @@ def rope_witness(prop, failures, repo, verif, workdir, seed, log):
 
 
 def c19_witness(prop, failures, repo, verif, workdir, seed, log):
-    if any("rope_core" in f.name or "rope_obs" in f.name for f in failures):
+    if any("rope_core" in f.name or "rope_obs" in f.name or "rope_build" in f.name for f in failures):
         return rope_witness(prop, failures, repo, verif, workdir, seed, log)
     if any("rope_degenerate" in f.name for f in failures):
         t0 = time.time()
@@ -165,7 +165,7 @@ def c19_witness(prop, failures, repo, verif, workdir, seed, log):
 
 
 def mixed_witness(prop, failures, repo, verif, workdir, seed, log):
-    if any("rope_core" in f.name or "rope_obs" in f.name for f in failures):
+    if any("rope_core" in f.name or "rope_obs" in f.name or "rope_build" in f.name for f in failures):
         return rope_witness(prop, failures, repo, verif, workdir, seed, log)
     if any("rope_bounds" in f.name for f in failures):
         return ropebounds_witness(prop, failures, repo, verif, workdir, seed, log)
